@@ -5,6 +5,7 @@ package main
 import (
 	"fmt"
 	"go/types"
+	"os"
 	"sort"
 	"strings"
 
@@ -114,21 +115,55 @@ func (p *Program) concreteTypes() []types.Type {
 }
 
 // writeSet computes the heap arrays a module function may write (transitively), type-based.
-func (p *Program) writeSet(fn *ssa.Function) *FrameSet {
+func (p *Program) writeSet(fn *ssa.Function) *FrameSet { return p.writeSetX(fn, false) }
+
+// writeSetX with skipFV: stores through captured cells (free variables) are left out; used when a closure's effects are
+// folded into its parent's write set (the captured cells are locals of the parent, invisible to the parent's callers).
+func (p *Program) writeSetX(fn *ssa.Function, skipFV bool) *FrameSet {
 	if fn.Origin() != nil {
 		fn = fn.Origin()
 	}
-	if ws, ok := p.writeSets[fn]; ok {
+	cache := p.writeSets
+	if skipFV {
+		if p.writeSetsNoFV == nil {
+			p.writeSetsNoFV = map[*ssa.Function]*FrameSet{}
+		}
+		cache = p.writeSetsNoFV
+	}
+	if ws, ok := cache[fn]; ok {
 		return ws
 	}
 	ws := NewFrameSet()
-	p.writeSets[fn] = ws // cut recursion (fixpoint below is approximated by one more pass)
+	cache[fn] = ws // cut recursion (fixpoint below is approximated by one more pass)
 	if fn.Pkg != nil && p.Spec.PkgFrames[fn.Pkg.Pkg.Path()] {
 		return ws
 	}
+	pureDeclared := false
 	if fc, ok := p.Contracts[funcKey(fn)]; ok && fc.ModDeclared && len(fc.Modifies) == 0 {
-		return ws
+		pureDeclared = true
+		if fc.Trusted || len(fn.Blocks) == 0 {
+			(&Exec{prog: p, fn: fn}).ghostSetFrame(fn, fc, ws)
+			return ws
+		}
 	}
+	defer func() {
+		if pureDeclared {
+			// real-state writes are excluded by the (checked) contract; keep only ghost names
+			for n := range ws.Names {
+				if !isGhostName(n) {
+					delete(ws.Names, n)
+				}
+			}
+			if ws.All {
+				ws.All = false
+				for n := range heapSorts {
+					if isGhostName(n) {
+						ws.Names[n] = true
+					}
+				}
+			}
+		}
+	}()
 	if len(fn.Blocks) == 0 {
 		if fn.Pkg != nil && inModule(fn.Pkg.Pkg) {
 			ws.All = true // module function without a body here (should not happen)
@@ -140,8 +175,19 @@ func (p *Program) writeSet(fn *ssa.Function) *FrameSet {
 	cells := map[*ssa.Alloc]bool{}
 	for _, b := range fn.Blocks {
 		for _, in := range b.Instrs {
+			wasAll := ws.All
+			if os.Getenv("GOVC_DEBUG_WS") != "" {
+				defer func(in ssa.Instruction, wasAll bool) {}(in, wasAll)
+			}
 			switch v := in.(type) {
 			case *ssa.Store:
+				// stores into objects allocated by this very function are invisible to callers
+				if root, ok := rootAlloc(v.Addr); ok && root.Parent() == fn {
+					continue
+				}
+				if skipFV && rootIsFreeVar(v.Addr) {
+					continue
+				}
 				x.staticWrite(v.Addr, nil, cells, ws)
 			case *ssa.MapUpdate:
 				if mt, ok := v.Map.Type().Underlying().(*types.Map); ok {
@@ -152,10 +198,13 @@ func (p *Program) writeSet(fn *ssa.Function) *FrameSet {
 			case ssa.CallInstruction:
 				x.staticCallFrame(v, nil, cells, ws)
 			}
+			if ws.All && !wasAll && os.Getenv("GOVC_DEBUG_WS") != "" {
+				fmt.Fprintf(os.Stderr, "writeset ALL in %s due to: %s\n", fn.Name(), in.String())
+			}
 		}
 	}
 	for _, an := range fn.AnonFuncs {
-		ws.union(p.writeSet(an))
+		ws.union(p.writeSetX(an, true))
 	}
 	return ws
 }
@@ -214,6 +263,15 @@ func (x *Exec) staticCallFrame(ci ssa.CallInstruction, loop map[*ssa.BasicBlock]
 		return
 	}
 	// a closure created in this function and called through a local variable
+	if fns := localClosures(c.Value); len(fns) > 0 {
+		for _, fn := range fns {
+			x.calleeFrame(fn, c.Args, loop, cells, frame)
+		}
+		return
+	}
+	if os.Getenv("GOVC_DEBUG_WS") != "" {
+		fmt.Fprintf(os.Stderr, "writeset ALL: %s: dynamic call %s of type %s\n", x.fn.Name(), ci.String(), c.Value.Type())
+	}
 	frame.All = true
 }
 
@@ -244,7 +302,17 @@ func (x *Exec) calleeFrame(f *ssa.Function, args []ssa.Value, loop map[*ssa.Basi
 	if f.Origin() != nil {
 		key = funcKey(f.Origin())
 	}
+	if fc, ok := p.Contracts[key]; ok {
+		x.ghostSetFrame(f, fc, frame)
+	}
 	if fc, ok := p.Contracts[key]; ok && fc.ModDeclared {
+		if len(f.Blocks) > 0 && !fc.Trusted {
+			for n := range p.writeSet(f).Names {
+				if isGhostName(n) {
+					frame.Names[n] = true
+				}
+			}
+		}
 		if len(fc.Modifies) == 0 {
 			return
 		}
@@ -331,6 +399,23 @@ func (x *Exec) staticModifies(f *ssa.Function, fc *FuncContract, m Expr, frame *
 func (x *Exec) staticExprType(f *ssa.Function, fc *FuncContract, e Expr) types.Type {
 	switch v := e.(type) {
 	case *EIdent:
+		if f.Signature != nil {
+			res := f.Signature.Results()
+			for i := 0; i < res.Len(); i++ {
+				if (i < len(fc.Results) && fc.Results[i] == v.Name) || res.At(i).Name() == v.Name {
+					// a parameter of the same name wins
+					isParam := false
+					for j, p := range f.Params {
+						if p.Name() == v.Name || (j < len(fc.Params) && fc.Params[j] == v.Name) {
+							isParam = true
+						}
+					}
+					if !isParam {
+						return res.At(i).Type()
+					}
+				}
+			}
+		}
 		for i, p := range f.Params {
 			if p.Name() == v.Name || (i < len(fc.Params) && fc.Params[i] == v.Name) {
 				return p.Type()
@@ -408,6 +493,16 @@ func (x *Exec) call(st *State, in ssa.Instruction, c *ssa.CallCommon) (Value, []
 }
 
 func (x *Exec) callWith(st *State, in ssa.Instruction, c *ssa.CallCommon, fnv Value, args []Value) Value {
+	if x.fc != nil && len(x.fc.CallAsserts) > 0 {
+		site := fmt.Sprintf("%s#%d", x.calleeName(c), x.callOrd[in])
+		if cl, ok := x.fc.CallAsserts[site]; ok {
+			x.assertedSites[site] = true
+			ctx := x.ctxFor(st, x.entry, nil)
+			for _, a := range cl {
+				x.oblige(st, "assert", a.Label+"@"+site, x.evalBool(ctx, a), a.Text)
+			}
+		}
+	}
 	sig := c.Signature()
 	var resT types.Type = sig.Results()
 	if sig.Results().Len() == 1 {
@@ -464,9 +559,9 @@ func (x *Exec) callStatic(st *State, in ssa.Instruction, c *ssa.CallCommon, fv *
 	cells := map[*ssa.Alloc]bool{}
 	x.calleeFrame(f, c.Args, nil, cells, frame)
 	if f.Parent() != nil || len(fv.Bind) > 0 {
-		// closure: may write captured cells
-		for _, b := range fv.Bind {
-			if p, ok := b.(*Ptr); ok {
+		// closure: may write the captured cells it stores to
+		for i, b := range fv.Bind {
+			if p, ok := b.(*Ptr); ok && i < len(f.FreeVars) && writesFreeVar(f, f.FreeVars[i], 0) {
 				x.havocPointee(st, p)
 			}
 		}
@@ -592,12 +687,40 @@ func (x *Exec) applyContract(st *State, in ssa.Instruction, fc *FuncContract, f 
 		key := mk(st).lockKeyTerm(e)
 		x.release(st, in, key, e, mk(st))
 	}
+	// ghost frame: ghost arrays written (transitively) by the callee are forgotten; its ensures/ghostsets re-establish
+	// what the contract promises about them
+	if f != nil && len(f.Blocks) > 0 && !fc.Trusted {
+		gf := NewFrameSet()
+		ws := x.prog.writeSet(f)
+		if ws.All {
+			for n := range heapSorts {
+				if isGhostName(n) {
+					gf.Names[n] = true
+				}
+			}
+		}
+		for n := range ws.Names {
+			if isGhostName(n) {
+				gf.Names[n] = true
+			}
+		}
+		x.applyFrame(st, gf)
+	}
 	// frame
 	if fc.ModDeclared {
 		for _, m := range fc.Modifies {
 			x.havocModifies(st, mk(pre), m)
 		}
 	} else if f != nil && len(f.Blocks) > 0 {
+		if os.Getenv("GOVC_DEBUG_WS") != "" {
+			ws := x.prog.writeSet(f)
+			var ns []string
+			for n := range ws.Names {
+				ns = append(ns, n)
+			}
+			sort.Strings(ns)
+			fmt.Fprintf(os.Stderr, "writeset of %s: all=%v %v\n", f.Name(), ws.All, ns)
+		}
 		x.applyFrame(st, x.prog.writeSet(f))
 		for _, a := range args {
 			if p, ok := a.(*Ptr); ok && p.Cell != nil {
@@ -643,7 +766,7 @@ func (x *Exec) applyContract(st *State, in ssa.Instruction, fc *FuncContract, f 
 			if r.Sort == SIface {
 				r = ival(r)
 			}
-			st.assume(And(Gt(r, IntLit(0)), Not(Select(st.alloc, r))), "result "+name+" of "+shortName+" is freshly allocated")
+			st.assume(Or(Eq(r, IntLit(0)), And(Gt(r, IntLit(0)), Not(Select(st.alloc, r)))), "result "+name+" of "+shortName+" is nil or freshly allocated")
 			st.alloc = x.define(st, "alloc", Store(st.alloc, r, True))
 			x.fresh[r.String()] = true
 		}
@@ -653,6 +776,7 @@ func (x *Exec) applyContract(st *State, in ssa.Instruction, fc *FuncContract, f 
 		t := x.evalClauseAt(ctx, c)
 		st.assume(t, "ensures of "+shortName+" ["+c.Label+"]")
 	}
+	x.applyGhostSets(st, fc, mk(st))
 	return res
 }
 
@@ -859,6 +983,32 @@ func (x *Exec) frameGoals(st *State, only map[string]bool) (out []frameGoal) {
 			}
 		}()
 	}
+	for _, g := range fc.GhostSets {
+		func() {
+			defer func() {
+				if r := recover(); r != nil {
+					if _, ok := r.(evalError); ok {
+						return
+					}
+					panic(r)
+				}
+			}()
+			switch e := g.LHS.(type) {
+			case *EIdent:
+				whole["GV$"+e.Name] = true
+			case *EIndex:
+				if id, ok := e.X.(*EIdent); ok {
+					whole["GV$"+id.Name] = true
+				}
+			case *EField:
+				base := ctx.eval(e.X)
+				if pt, ok := base.T.Underlying().(*types.Pointer); ok {
+					n := ghostHeapName(pt.Elem(), e.Name)
+					allowed[n] = append(allowed[n], ctx.termOf(base))
+				}
+			}
+		}()
+	}
 	if whole["*"] {
 		return
 	}
@@ -870,9 +1020,10 @@ func (x *Exec) frameGoals(st *State, only map[string]bool) (out []frameGoal) {
 	}
 	sort.Strings(names)
 	for _, n := range names {
-		if whole[n] || strings.HasPrefix(n, "C$") {
+		if whole[n] || strings.HasPrefix(n, "C$") || isGhostName(n) || isExternalHeap(n) {
 			continue
 		}
+		x.prog.U.AddFun(&FunDecl{Name: n + "@pre", Ret: heapSorts[n]})
 		cur := st.heap[n]
 		s := heapSorts[n]
 		k, es, isArr := arrayParts(s)
@@ -1210,4 +1361,204 @@ func (x *Exec) functionalResult(st *State, fc *FuncContract, ptypes []types.Type
 		return out
 	}
 	return out[0]
+}
+
+// applyGhostSets performs the ghost assignments of a contract in state st (ctx evaluates in st, old() in ctx.old).
+func (x *Exec) applyGhostSets(st *State, fc *FuncContract, ctx *EvalCtx) {
+	for _, g := range fc.GhostSets {
+		func() {
+			defer func() {
+				if r := recover(); r != nil {
+					if e, ok := r.(evalError); ok {
+						panic(unsupported{fmt.Sprintf("ghostset %s (%s:%d): %s", g.Text, g.File, g.Line, e.msg)})
+					}
+					panic(r)
+				}
+			}()
+			rhs := ctx.termOf(ctx.eval(g.RHS))
+			x.ghostAssign(st, ctx, g.LHS, rhs)
+		}()
+	}
+}
+
+func (x *Exec) ghostAssign(st *State, ctx *EvalCtx, lhs Expr, rhs *Term) {
+	switch e := lhs.(type) {
+	case *EIdent:
+		name := "GV$" + e.Name
+		cur := ctx.termOf(ctx.eval(e)) // registers the sort
+		if cur.Sort != rhs.Sort {
+			ctx.fail("ghostset: sort mismatch %s vs %s", cur.Sort, rhs.Sort)
+		}
+		heapSorts[name] = rhs.Sort
+		st.heap[name] = x.define(st, name, rhs)
+	case *EIndex:
+		id, ok := e.X.(*EIdent)
+		if !ok {
+			ctx.fail("ghostset a[i] := e needs a ghost array a")
+		}
+		name := "GV$" + id.Name
+		cur := ctx.termOf(ctx.eval(id))
+		idx := ctx.termOf(ctx.eval(e.I))
+		heapSorts[name] = cur.Sort
+		st.heap[name] = x.define(st, name, Store(cur, idx, rhs))
+	case *EField:
+		base := ctx.eval(e.X)
+		if base.T == nil {
+			ctx.fail("ghostset needs a typed base")
+		}
+		pt, ok := base.T.Underlying().(*types.Pointer)
+		if !ok {
+			ctx.fail("ghostset base must be a pointer")
+		}
+		gs, ok := ctx.ghostField(pt.Elem(), e.Name)
+		if !ok {
+			ctx.fail("no ghost field %s on %s", e.Name, pt.Elem())
+		}
+		if gs != rhs.Sort {
+			ctx.fail("ghostset: sort mismatch %s vs %s", gs, rhs.Sort)
+		}
+		name := ghostHeapName(pt.Elem(), e.Name)
+		cur := x.heapGet(st, name, gs)
+		x.heapSet(st, name, Store(cur, ctx.termOf(base), rhs))
+	default:
+		ctx.fail("unsupported ghostset target")
+	}
+}
+
+// ghostSetFrame adds the ghost arrays assigned by a contract's ghostsets (statically).
+func (x *Exec) ghostSetFrame(f *ssa.Function, fc *FuncContract, frame *FrameSet) {
+	for _, g := range fc.GhostSets {
+		switch e := g.LHS.(type) {
+		case *EIdent:
+			frame.Names["GV$"+e.Name] = true
+		case *EIndex:
+			if id, ok := e.X.(*EIdent); ok {
+				frame.Names["GV$"+id.Name] = true
+			}
+		case *EField:
+			bt := x.staticExprType(f, fc, e.X)
+			if bt == nil {
+				frame.All = true
+				continue
+			}
+			if pt, ok := bt.Underlying().(*types.Pointer); ok {
+				bt = pt.Elem()
+			}
+			frame.Names[ghostHeapName(bt, e.Name)] = true
+		}
+	}
+}
+
+func isGhostName(n string) bool { return strings.HasPrefix(n, "GV$") || strings.HasPrefix(n, "GH$") }
+
+// writesFreeVar: does fn (or a closure it creates that captures the same cell) store through the captured cell fv?
+func writesFreeVar(fn *ssa.Function, fv *ssa.FreeVar, depth int) bool {
+	if depth > 4 {
+		return true
+	}
+	rootIs := func(v ssa.Value) bool {
+		for {
+			switch a := v.(type) {
+			case *ssa.FreeVar:
+				return a == fv
+			case *ssa.FieldAddr:
+				v = a.X
+			case *ssa.IndexAddr:
+				v = a.X
+			default:
+				return false
+			}
+		}
+	}
+	for _, b := range fn.Blocks {
+		for _, in := range b.Instrs {
+			switch v := in.(type) {
+			case *ssa.Store:
+				if rootIs(v.Addr) {
+					return true
+				}
+			case *ssa.MakeClosure:
+				inner := v.Fn.(*ssa.Function)
+				for i, bind := range v.Bindings {
+					if bind == ssa.Value(fv) && i < len(inner.FreeVars) && writesFreeVar(inner, inner.FreeVars[i], depth+1) {
+						return true
+					}
+				}
+			case ssa.CallInstruction:
+				// the cell's address passed to a callee
+				for _, a := range v.Common().Args {
+					if rootIs(a) {
+						if _, isPtr := a.Type().Underlying().(*types.Pointer); isPtr {
+							return true
+						}
+					}
+				}
+			}
+		}
+	}
+	return false
+}
+
+// localClosures: if v is a load of a local variable that only ever holds closures created in the same function,
+// return those closures.
+func localClosures(v ssa.Value) []*ssa.Function {
+	if mc, ok := v.(*ssa.MakeClosure); ok {
+		return []*ssa.Function{mc.Fn.(*ssa.Function)}
+	}
+	u, ok := v.(*ssa.UnOp)
+	if !ok {
+		return nil
+	}
+	a, ok := u.X.(*ssa.Alloc)
+	if !ok {
+		return nil
+	}
+	var out []*ssa.Function
+	refs := a.Referrers()
+	if refs == nil {
+		return nil
+	}
+	for _, r := range *refs {
+		switch w := r.(type) {
+		case *ssa.Store:
+			if w.Addr != ssa.Value(a) {
+				return nil
+			}
+			switch val := w.Val.(type) {
+			case *ssa.MakeClosure:
+				out = append(out, val.Fn.(*ssa.Function))
+			case *ssa.Function:
+				out = append(out, val)
+			default:
+				return nil
+			}
+		case *ssa.UnOp, *ssa.DebugRef:
+		case *ssa.MakeClosure:
+			// captured by another closure: it could be reassigned there; check that closure does not store to it
+			inner := w.Fn.(*ssa.Function)
+			for i, b := range w.Bindings {
+				if b == ssa.Value(a) && i < len(inner.FreeVars) && writesFreeVar(inner, inner.FreeVars[i], 0) {
+					return nil
+				}
+			}
+		default:
+			return nil
+		}
+	}
+	return out
+}
+
+func rootIsFreeVar(v ssa.Value) bool {
+	for {
+		switch a := v.(type) {
+		case *ssa.FreeVar:
+			return true
+		case *ssa.FieldAddr:
+			v = a.X
+		case *ssa.IndexAddr:
+			v = a.X
+		default:
+			return false
+		}
+	}
 }
